@@ -7,7 +7,8 @@
 (* printed as JSON and realised as a concrete stream by the reference       *)
 (* serialiser; the first event is always a dictionary reset.                *)
 EXTENDS Lzma, Json
-CONSTANTS DictCap, Depth
+CONSTANTS DictCap, Depth,
+          ChunkEvents   \* FALSE: pure operation sequences (classic .lzma), no chunk layer
 VARIABLES hist
 gvars == <<cap, pos, st, rep, np, hist>>
 
@@ -17,7 +18,7 @@ LenSet  == {2, 3, 4, 17, 18, 272, 273, RandomElement(2..273), RandomElement(2..4
 (* evaluate a RandomElement inside a LET more than once.                  *)
 Log(k) == hist' = Append(hist, [k |-> k, d |-> IF k = "M" THEN rep'[1] ELSE 0, n |-> IF k = "UD" THEN pos' ELSE pos' - pos])
 LogR(g) == hist' = Append(hist, [k |-> "R", d |-> g, n |-> pos' - pos])
-Started == Len(hist) > 0
+Started == Len(hist) > 0 \/ ~ChunkEvents
 LastK == IF Started THEN hist[Len(hist)].k ELSE "none"
 Boundary == LastK \in {"CUT", "SR", "SRN", "DRL", "UD", "U", "none"}   \* no operation coded since the last chunk boundary
 
@@ -35,7 +36,7 @@ GRaw == Started /\ (~Boundary \/ LastK \in {"UD", "U"}) /\ LET n == RandomElemen
 
 GNext == Len(hist) < Depth /\
          (GLit \/ GMatch \/ GLit \/ GMatch \/ GShort \/ (\E g \in 1..4 : GRep(g))
-          \/ GCut \/ GStateReset \/ GNewProps \/ GDictResetL \/ GRawD \/ GRaw)
+          \/ (ChunkEvents /\ (GCut \/ GStateReset \/ GNewProps \/ GDictResetL \/ GRawD \/ GRaw)))
 GSpec == LInit(DictCap) /\ hist = <<>> /\ [][GNext]_gvars
 Emit == Len(hist) = Depth => PrintT(ToJson(hist))
 =============================================================================
